@@ -172,6 +172,19 @@ def isInfixBy (eq : α → α → Bool) (needle : List α) : List α → Bool
 def isSuffixBy (eq : α → α → Bool) (needle hay : List α) : Bool :=
   isPrefixBy eq needle.reverse hay.reverse
 
+mutual
+/-- does a value contain a closure (closures compare by object identity: outside the model)? -/
+def Val.hasClo : Val → Bool
+  | .clo .. => true
+  | .seq _ es => Val.hasCloList es
+  | _ => false
+def Val.hasCloList : List Val → Bool
+  | [] => false
+  | v :: vs => Val.hasClo v || Val.hasCloList vs
+end
+
+def unsupportedClo : Ev := .hard "unsupported:closure-compare"
+
 def valEq (cfg : Cfg) (a b : Val) : Bool := Val.cmpAnySame cfg a b
 where Val.cmpAnySame (cfg : Cfg) (a b : Val) : Bool :=
   -- `a->cmp (*b) == cmp_result::equal`: values of different types are not equal
@@ -190,7 +203,9 @@ def pEmpty : Stack → PredR
 
 def pListPred (cfg : Cfg) (k : {α : Type} → (α → α → Bool) → List α → List α → Bool) : Stack → PredR
   | .str _ needle :: .str _ hay :: _ => (some (k (· == ·) needle hay), [])
-  | .seq _ needle :: .seq _ hay :: _ => (some (k (valEq cfg) needle hay), [])
+  | .seq _ needle :: .seq _ hay :: _ =>
+    if Val.hasCloList needle || Val.hasCloList hay then (none, [unsupportedClo])
+    else (some (k (valEq cfg) needle hay), [])
   | _ => pFail
 
 def pContains : Stack → PredR
@@ -208,7 +223,7 @@ def pCmp (cfg : Cfg) (want : Ord3) : Stack → Option PredR      -- none = under
   | b :: a :: _ =>
     match Val.cmpAny cfg a b with
     | some r => some (some (r == want), [])
-    | none => some (none, [.soft "cmp"])
+    | none => some (none, [unsupportedClo])
   | _ => none
 
 /-- an assertion word: keeps the frame iff the predicate says `positive` -/
@@ -342,7 +357,8 @@ def closeStep (ctx : Ctx) (r : Evs) (f : Frame) (seen work : List Stack) :
     let (out, seen, work) := acc
     match e with
     | .frame g =>
-      if seen.any (stackEq ctx.cfg g.stk) then (out, seen, work)
+      if Val.hasCloList g.stk then (out ++ [unsupportedClo], seen, work)
+      else if seen.any (stackEq ctx.cfg g.stk) then (out, seen, work)
       else (out ++ [.frame { g with env := f.env }], seen ++ [g.stk], work ++ [g.stk])
     | e => (out ++ [e], seen, work)) ([], seen, work)
 
@@ -492,8 +508,10 @@ def sem1 (ctx : Ctx) : Nat → Tree → Frame → Evs
         | some true => evs ++ [.frame f]
         | _ => evs
     | .node .CLOSE_STAR _ [c] =>
+      if Val.hasCloList f.stk then [unsupportedClo] else
       cutHard (.frame f :: restoreEnv f.env (semClose ctx fuel c f [f.stk] [f.stk]))
     | .node .CLOSE_PLUS _ [c] =>
+      if Val.hasCloList f.stk then [unsupportedClo] else
       let r := sem ctx fuel c [.frame f]
       let (out, seen, work) := closeStep ctx r f [] []
       if out.any (fun | .hard _ => true | _ => false) then cutHard (restoreEnv f.env out)
